@@ -348,9 +348,17 @@ fn hops_show(seq: &[usize]) -> String {
 const CTORS: [&str; 5] = ["new_no_delta", "new_start_at_zero", "new_custom_start(30)", "new_custom_delta(-12)", "new_start_at_zero(failing clock)"];
 
 fn history_case(ctor: usize, c0: i64, seq: &[usize], e: &mut Eng) -> u64 {
+    history_case_b(ctor, c0, seq, e, false)
+}
+/// `bystander`: a second GetterFromHistory over its own history and clock is constructed right
+/// after the one under test and is poked (set_delta / set_time / get, with other values) after
+/// every operation; the object under test must behave as if it were alone.
+fn history_case_b(ctor: usize, c0: i64, seq: &[usize], e: &mut Eng, bystander: bool) -> u64 {
     let n = seq.len();
-    let desc = || format!("{} at clock {} then [{}]", CTORS[ctor], c0, hops_show(seq));
+    let desc = || format!("{} at clock {} then [{}]{}", CTORS[ctor], c0, hops_show(seq), if bystander { " (with a second, independent GetterFromHistory alive and in use)" } else { "" });
     let r = guard(|| {
+        let mut hist2 = Echo { updates: 0 };
+        let clock2 = rc(ScrTime::new(Ok(Time(c0 + 1234))));
         let mut hist = Echo { updates: 0 };
         let clock = rc(ScrTime::new(Ok(Time(c0))));
         if ctor == 4 {
@@ -366,10 +374,22 @@ fn history_case(ctor: usize, c0: i64, seq: &[usize], e: &mut Eng) -> u64 {
             Ok(g) => g,
             Err(er) => return (Some(er), Vec::new()),
         };
+        let mut by: Option<GetterFromHistory<i64, ScrTime, E>> = if bystander { Some(GetterFromHistory::new_custom_delta(&mut hist2, rf(&clock2), Time(777))) } else { None };
         let mut now = c0;
         let mut failing = false;
         let mut trace: Vec<(u32, Obs, u64)> = Vec::new();
-        for &i in seq {
+        for (k, &i) in seq.iter().enumerate() {
+            if let Some(b) = by.as_mut() {
+                match k % 3 {
+                    0 => b.set_delta(Time(1000 + k as i64)),
+                    1 => {
+                        let _ = b.set_time(Time(-55));
+                    }
+                    _ => {
+                        let _ = b.get();
+                    }
+                }
+            }
             let mut res = 0u32;
             let mut got = Obs::NONE;
             match HOPS[i] {
@@ -702,6 +722,13 @@ pub fn run(ctx: &Ctx) -> Vec<Eng> {
             });
         }
         e2.bounds.push_str("; plus all 40-operation sequences within 2 deviations of `get`");
+    }
+    {
+        // with a bystander object alive (one step shorter)
+        for ctor in 0..4 {
+            par_seqs(&mut e2, HOPS.len(), hdepth - 1, budget, |seq, e| history_case_b(ctor, 17, seq, e, true));
+        }
+        e2.bounds.push_str("; plus all sequences one step shorter with a second, independent GetterFromHistory (own history, own clock, other offsets) alive and poked after every operation");
     }
     {
         let (ph, maxp) = (40, 3);
